@@ -67,6 +67,8 @@ pub struct Cfg {
     /// None = leave the builder's default
     pub cleanup: Option<Duration>,
     pub collide: bool,
+    /// with `collide`: the even key of each pair has conflict hash 0 ("no conflict hash")
+    pub collide_zero_even: bool,
     pub manual_ticker: bool,
 }
 
@@ -81,6 +83,7 @@ impl Default for Cfg {
             ignore_internal: true,
             cleanup: None,
             collide: false,
+            collide_zero_even: false,
             manual_ticker: true,
         }
     }
@@ -443,7 +446,7 @@ pub fn build(flavor: Flavor, cfg: &Cfg) -> Result<Arc<dyn Drv>, String> {
     if cfg.manual_ticker {
         stretto::verif::ticker::arm_manual();
     }
-    let kb = Kb { collide: cfg.collide };
+    let kb = Kb { collide: cfg.collide, zero_even: cfg.collide_zero_even };
     match flavor {
         Flavor::Sync => {
             let mut b = CacheBuilder::new_with_key_builder(cfg.num_counters, cfg.max_cost, kb)
